@@ -39,7 +39,7 @@ def expected_parse(doc):
     if doc["nl"] not in ("\n", "\r\n") or doc.get("lone"):
         return None
     for name, (kind, x) in doc["headers"]:
-        if not re.fullmatch(r"[\x21-\x39\x3b-\x7e]+", name) or name.lower() in ("content-type", "content-transfer-encoding", "mime-version"):
+        if not re.fullmatch(r"[\x21-\x39\x3b-\x7e]+", name):
             return None
         ok = True
         if kind == "t":
@@ -332,7 +332,17 @@ class C18(Prop):
         while k < n:
             r = rng.random()
             if r < 0.45:
-                yield ("partition_no_loss", {"doc": G.document(rng, wellformed=True)})
+                doc = G.document(rng, wellformed=True)
+                if rng.random() < 0.15:
+                    # a stray MIME header is one more unknown header: it must not change what happens to the body
+                    name = G.spell_name(rng, rng.choice(G.MIME_HEADERS))
+                    val = rng.choice(["base64", "quoted-printable", "8bit", "7bit", "x-uuencode", "binary", "text/plain; charset=latin-1",
+                                      "multipart/mixed; boundary=x", "message/rfc822", "1.0"])
+                    doc["headers"].insert(rng.randrange(len(doc["headers"]) + 1), [name, ["t", val]])
+                    if rng.random() < 0.6:
+                        doc["body"] = ["t", rng.choice(["aGVsbG8=\n", "!!!!", "a=3Db", "caf=C3=A9 =\nx", "begin 644 f\n#86)C\n`\nend\n",
+                                                        "plain text", "--x\n\nfoo\n--x--\n"])]
+                yield ("partition_no_loss", {"doc": doc})
             elif r < 0.7:
                 doc = G.document(rng, wellformed=rng.random() < 0.3)
                 if not doc["bytes"] and rng.random() < 0.05:
